@@ -43,7 +43,7 @@ JudgeForm(c, P, f) ==
 Judge_forms(c) ==
   LET P == Parse(c.schema) IN
   IF ~P.ok THEN << Cl("H.schema", "fail") >>
-  ELSE IF "perr" \in DOMAIN c THEN << Cl("C11.accept", "fail") >>
+  ELSE IF "perr" \in DOMAIN c THEN << Cl("C11.accept", "fail"), Cl("C12.binary_write.raw", "fail") >>
   ELSE IF ~Conforms(P.t, c.datum, P.st.names, Opts0) THEN << Cl("H.conforms", "fail") >>
   ELSE Concat(MapSeq(LAMBDA f : JudgeForm(c, P, f), c.forms))
        \* the caller's dictionary after parsing (whole, or piece by piece) holds exactly the names the specification defines
